@@ -2,4 +2,11 @@ package main
 
 import "github.com/benhoyt/goawk/verifharness/c19"
 
-func init() { props["C19"] = &Prop{Replay: c19.Replay, Record: c19.Record} }
+func init() {
+	props["C19"] = &Prop{Replay: c19.Replay, Record: c19.Record, Modes: map[string]func([]string) int{
+		// parse the text on standard input once, in a process of its own (confirmation of parse-history deviations)
+		"freshparse": c19.FreshParseMode,
+		// histories of parses recorded for Trace_ParseHistory.tla
+		"record-history": c19.RecordHistories,
+	}}
+}
